@@ -303,6 +303,7 @@ class Facts(object):
         self.enums = []
         self.vars = {}
         self.var_list = []    # every global/static constant record (same name may occur in several units)
+        self.gvars = []       # storage records of namespace-scope / static-member variable definitions: q, file, line, type, tls
         self.macros = {}      # name -> [ {file,line,body} ]
         self.units = []
         self.errors = []
@@ -349,6 +350,9 @@ class Facts(object):
             elif k == 'var':
                 self.vars.setdefault(rec['q'], rec)
                 self.var_list.append(rec)
+                pending.append(rec)
+            elif k == 'gvar':
+                self.gvars.append(rec)
                 pending.append(rec)
             elif k == 'macro':
                 self.macros.setdefault(rec['n'], []).append(rec)
